@@ -22,6 +22,9 @@ fn main() {
     if id == "C05-family" {
         std::process::exit(checks::c05::family_child(&args[2], args[3].parse().unwrap()));
     }
+    if id == "C13-first" {
+        std::process::exit(checks::c13::first_child(args[2].parse().unwrap()));
+    }
     if id == "C05-one" {
         let mut st = engine::Stats::default();
         checks::c05::total(&args[2], "one", &mut st);
